@@ -36,6 +36,25 @@ def _attr_classes(P, cls, attr):
                     v = v.value
                 if isinstance(v, ast.Call):
                     c = P.resolve_expr_class(m.module, v.func)
+                    if c is None and isinstance(v.func, ast.Attribute) and isinstance(v.func.value, ast.Name) and v.func.value.id in ("self", "cls", cls.name) \
+                            and v.func.attr in cls.methods:
+                        # a factory method of the class: the attribute holds whatever it returns
+                        h = cls.methods[v.func.attr]
+                        for ret in [x for x in walk_live(h.node) if isinstance(x, ast.Return) and x.value is not None]:
+                            rv = ret.value
+                            fld = None
+                            if isinstance(rv, ast.Attribute) and isinstance(rv.value, ast.Call):
+                                fld, rv = rv.attr, rv.value
+                            if not isinstance(rv, ast.Call):
+                                raise AnalysisError(f"{h.qual}: `{norm(ret)}` is not a constructor call")
+                            k = P.resolve_expr_class(h.module, rv.func)
+                            if k is None:
+                                raise AnalysisError(f"{h.qual}: cannot resolve the class constructed in `{norm(ret)}`")
+                            if fld is not None:
+                                out.extend((kk, ret) for kk, _ in _attr_classes(P, k, fld))
+                            else:
+                                out.append((k, ret))
+                        continue
                     if c is None:
                         raise AnalysisError(f"{m.qual}: cannot resolve the class constructed in `{norm(n)}`")
                     if field is not None:
@@ -158,25 +177,35 @@ def rule_pipe_lm(P, owners=LM_OWNERS, need_normalize=True):
         model_defs = [n for n in walk_live(init.node) if isinstance(n, ast.Assign) and any(_self_attr(t, "model") for t in n.targets)]
         if not model_defs:
             raise AnalysisError(f"{init.qual}: no `self.model = ...`")
+        expanded = []
         for md in model_defs:
             v = md.value
+            if isinstance(v, ast.Call) and isinstance(v.func, ast.Attribute) and isinstance(v.func.value, ast.Name) and v.func.value.id in ("self", "cls", cname) \
+                    and v.func.attr in cls.methods and v.args and W.is_name(v.args[0], cfgp):
+                h = cls.methods[v.func.attr]
+                hp = [p_ for p_ in h.params if p_ not in ("self", "cls")]
+                for ret in [x for x in walk_live(h.node) if isinstance(x, ast.Return) and x.value is not None]:
+                    expanded.append((h, ret, ret.value, hp[0] if hp else cfgp))
+            else:
+                expanded.append((init, md, v, cfgp))
+        for fn_, md, v, cfgp_ in expanded:
             ok = False
             why = ""
             inner = v
             if isinstance(inner, ast.Attribute) and isinstance(inner.value, ast.Call):
                 inner = inner.value
             if isinstance(inner, ast.Call):
-                k = P.resolve_expr_class(init.module, inner.func)
+                k = P.resolve_expr_class(fn_.module, inner.func)
                 if k is not None and (k.module.rel, k.name) in LM_OWNERS:
-                    ok = bool(inner.args) and W.is_name(inner.args[0], cfgp)  # delegates to another LM (same pipeline)
+                    ok = bool(inner.args) and W.is_name(inner.args[0], cfgp_)  # delegates to another LM (same pipeline)
                     why = "delegates to " + k.name
                 elif inner.args:
-                    root, names = _expand(init, inner.args[0], md)
-                    ok = "prefix_grammar" in names and root in (cfgp, f"add_EOS({cfgp})")
+                    root, names = _expand(fn_, inner.args[0], md)
+                    ok = "prefix_grammar" in names and root in (cfgp_, f"add_EOS({cfgp_})")
                     why = f"parser built on {root}.{'.'.join(names)}"
-                    if ok and eos_st is not None and W.pos(md) < W.pos(eos_st):
+                    if ok and fn_ is init and eos_st is not None and W.pos(md) < W.pos(eos_st):
                         ok = False
-            r.add(init, md, ok, "" if ok else f"`{first_line(md)}`: the parser is not built on the prefix grammar of the "
+            r.add(fn_, md, ok, "" if ok else f"`{first_line(md)}`: the parser is not built on the prefix grammar of the "
                   f"(EOS-augmented) grammar, so next-token weights are not prefix weights", slots=dict(built_on=why))
         # (c) vocabulary
         sup = [n for n in walk_live(init.node) if isinstance(n, ast.Call) and isinstance(n.func, ast.Attribute)
